@@ -540,6 +540,10 @@ def run_part(chk, workdir):
     # ---- 3e. supervisorctl tail against a REAL daemon (RPC read with a negative offset; tail -f over /logtail)
     _ctl_tail_probe(chk, os.path.join(wd, 'daemon'), count)
 
+    # ---- 3f. a log CLEARED while being read and tailed, through the real clearProcessLogs ->
+    #          Subprocess.removelogs -> POutputDispatcher.removelogs -> FileHandler / RotatingFileHandler
+    _clear_through_dispatcher(chk, os.path.join(wd, 'clr'), count)
+
     # ---- 4. hex
     hex_cases = ['(%s, %s)' % (zlit(n), bytes_lit(b'%x' % n)) for n in
                  list(range(0, 40)) + [255, 256, 4095, 4096, 65535, 65536, 1 << 20, (1 << 31) - 1, 1 << 40]
@@ -904,6 +908,106 @@ def _ctl_tail_probe(chk, dwd, count):
                            'output': list(out), 'log': list(log)})
     finally:
         d.stop()
+
+
+def _clear_through_dispatcher(chk, dwd, count):
+    from supervisor import rpcinterface, loggers, http as shttp
+    from supervisor.dispatchers import POutputDispatcher
+    from supervisor.events import ProcessCommunicationStdoutEvent
+    from supervisor.process import Subprocess
+    from rpcstack import RpcStack
+    os.makedirs(dwd, exist_ok=True)
+    for maxbytes, kind in ((0, 'FileHandler'), (1 << 20, 'RotatingFileHandler')):
+        path = os.path.join(dwd, 'out-%s.log' % kind)
+        if os.path.exists(path):
+            os.remove(path)
+        w = _W()
+
+        class Cfg(object):
+            name = 'p'
+            stdout_logfile = path
+            stdout_logfile_maxbytes = maxbytes
+            stdout_logfile_backups = 2
+            stdout_syslog = False
+            stdout_capture_maxbytes = 0
+            stdout_events_enabled = False
+            stderr_events_enabled = False
+            stderr_logfile = None
+            options = w.options
+        w.options.getLogger = staticmethod(loggers.getLogger)
+        w.options.loglevel = loggers.LevelsByName.INFO
+        w.options.strip_ansi = False
+
+        class RealishProc(object):
+            """config + the real output dispatcher; removelogs/reopenlogs are Subprocess's own"""
+            config = Cfg()
+            pid = 4242
+            removelogs = Subprocess.removelogs
+            reopenlogs = Subprocess.reopenlogs
+        proc = RealishProc()
+        disp = POutputDispatcher(proc, ProcessCommunicationStdoutEvent, 1)
+        proc.dispatchers = {1: disp}
+        w.process_groups['g'].processes = {'p': proc}
+        iface = rpcinterface.SupervisorNamespaceRPCInterface(w)
+        stack = RpcStack(w, [('supervisor', iface)])
+        script = []
+        problems = []
+
+        def out(data):
+            script.append(['child writes', data.decode()])
+            try:
+                disp.output_buffer += data
+                disp.record_output()
+            except Exception as e:
+                problems.append('child output after the clear raised %s: %s' % (type(e).__name__, e))
+
+        def expect(what, got, want):
+            script.append([what, repr(got)])
+            if got != want:
+                problems.append('%s: expected %r, got %r' % (what, want, got))
+
+        class _R(object):
+            pass
+        out(b'before-1\n')
+        out(b'before-2\n')
+        prod = shttp.tail_f_producer(_R(), path, 1024)
+        try:
+            expect('tail -f producer', prod.more(), b'before-1\nbefore-2\n')
+            expect('readProcessStdoutLog(0,0)', stack.call('supervisor.readProcessStdoutLog', ('g:p', 0, 0)),
+                   ('value', 'before-1\nbefore-2\n'))
+            for rnd in (1, 2):
+                script.append(['clearProcessLogs', 'g:p'])
+                expect('clearProcessLogs', stack.call('supervisor.clearProcessLogs', ('g:p',)), ('value', True))
+                expect('readProcessStdoutLog(0,0) right after the clear',
+                       stack.call('supervisor.readProcessStdoutLog', ('g:p', 0, 0)), ('value', ''))
+                a = ('after-%d-a\n' % rnd).encode()
+                b = ('after-%d-b\n' % rnd).encode()
+                out(a)
+                expect('readProcessStdoutLog(0,0)', stack.call('supervisor.readProcessStdoutLog', ('g:p', 0, 0)),
+                       ('value', a.decode()))
+                expect('tail -f producer resumes from the start of the new file', prod.more(), a)
+                out(b)
+                expect('tailProcessStdoutLog(0,100)', stack.call('supervisor.tailProcessStdoutLog', ('g:p', 0, 100)),
+                       ('value', [(a + b).decode(), len(a + b), False]))
+                expect('readProcessStdoutLog(-5,0)', stack.call('supervisor.readProcessStdoutLog', ('g:p', -5, 0)),
+                       ('value', (a + b)[-5:].decode()))
+                expect('tail -f producer', prod.more(), b)
+                with open(path, 'rb') as f:
+                    expect('log file content', f.read(), a + b)
+        except Exception as e:
+            problems.append('%s: %s' % (type(e).__name__, e))
+        finally:
+            prod._close()
+            for h in list(disp.normallog.handlers):
+                try:
+                    h.close()
+                except Exception:
+                    pass
+        count('clear-through-dispatcher:' + kind)
+        if problems:
+            chk.violation({'kind': 'PROPERTY VIOLATED: after supervisor.clearProcessLogs (real POutputDispatcher + %s) the bytes '
+                           'written after the clear are not what the read/tail RPCs and the tail -f producer deliver' % kind,
+                           'what': problems, 'sequence': script, 'handler': kind})
 
 
 def _first_diff(a, b):
